@@ -16,6 +16,7 @@ ASSUME \A b \in {2, 3, 5, 7} : ModExp(FromNat(b), Sub(q, One), q) = One /\ ModEx
 ASSUME Lt(Add(q, q), Pow2(384)) /\ Lt(Add(r, r), Pow2(256))
 \* lambda is a primitive cube root of unity mod r
 ASSUME AddMod(AddMod(MulMod(Lambda, Lambda, r), Lambda, r), One, r) = Zero
+ASSUME LambdaG1 = MulMod(Lambda, Lambda, r)
 \* generators are on their curves: y^2 = x^3 + 4 over Fq
 ASSUME MulMod(G1GenY, G1GenY, q) = AddMod(MulMod(MulMod(G1GenX, G1GenX, q), G1GenX, q), B1, q)
 \* the Montgomery constants used by the library's fields
